@@ -389,7 +389,7 @@ func runC06(c *Ctx) {
 						if !ok || flow.FieldName(fa) != "Vcpus" || !namedIs(fa.X.Type(), repoPath("sev"), "LaunchOptions") {
 							continue
 						}
-						if !sl.Derives(st.Val, func(v ssa.Value) bool { return v == mu.Key }) || !lb.Dominates(b) {
+						if !sl.Derives(st.Val, func(v ssa.Value) bool { return v == mu.Key || sameElemLoadIn(L, v, mu.Key) }) || !lb.Dominates(b) {
 							continue
 						}
 						opts := fa.X
@@ -1152,4 +1152,39 @@ func effectivelyInfallible(c *Ctx, g *ssa.Function, depth int) bool {
 		}
 	}
 	return n > 0
+}
+
+// sameElemLoadIn: a and b are two loads of the same element (same collection value, same index value) and no
+// instruction of the loop stores into that collection's elements, so both loads of one iteration see one value.
+func sameElemLoadIn(L *loop, a, b ssa.Value) bool {
+	la, ok1 := a.(*ssa.UnOp)
+	lb, ok2 := b.(*ssa.UnOp)
+	if !ok1 || !ok2 || la.Op != token.MUL || lb.Op != token.MUL {
+		return false
+	}
+	ia, ok1 := la.X.(*ssa.IndexAddr)
+	ib, ok2 := lb.X.(*ssa.IndexAddr)
+	if !ok1 || !ok2 || ia.X != ib.X || ia.Index != ib.Index {
+		return false
+	}
+	for blk := range L.Body {
+		for _, in := range blk.Instrs {
+			switch in := in.(type) {
+			case *ssa.Store:
+				if x, ok := in.Addr.(*ssa.IndexAddr); ok && x.X == ia.X {
+					return false
+				}
+			case *ssa.Call:
+				if bi, ok := in.Call.Value.(*ssa.Builtin); ok && (bi.Name() == "len" || bi.Name() == "cap") {
+					continue
+				}
+				for _, arg := range in.Call.Args {
+					if arg == ia.X {
+						return false // handed to a call that may write its elements
+					}
+				}
+			}
+		}
+	}
+	return true
 }
